@@ -774,7 +774,8 @@ def leaf_spec_probe(ctx, npts):
 
 def search(ctx):
     common.use_repo()
-    if any(f['kind'] == 'spec' for f in ctx.failures):
+    known = common.load_known('C04')
+    if any(f['kind'] == 'spec' and not any(common.matches(e, f) for e in known) for f in ctx.failures):
         return
     ok, log = common.lean_build(['Aegean.Proofs.C04Hand', 'Aegean.Driver.C04'])
     if not ok:
